@@ -19,7 +19,7 @@ import tlc
 CONFIGS = [("mem", 1), ("mem", 0), ("csv", 1), ("csv", 0)]
 
 READ_C01 = {"search", "count", "contains", "get", "select"}
-READ_C07 = {"all", "len", "iter", "get_measurements", "get_tag_keys", "get_tag_values", "get_field_keys",
+READ_C07 = {"all", "len", "iter", "repr", "get_measurements", "get_tag_keys", "get_tag_values", "get_field_keys",
             "get_field_values", "get_timestamps"}
 
 
